@@ -16,7 +16,10 @@ Definition skel_worker_modelled : list string :=
    "fast_slot.take"; "local_queue.pop"; "abort_signal.is_set"; "return"; "task.run"; "begin_worker_search"].
 Definition skel_sched_modelled : list string :=
   ["fast_slot.replace"; "return"; "local_queue.push"; "local_queue.drain"; "push_bucket"; "local_queue.push";
-   "insert_task"; "searching_worker_count"; "activate_worker_relaxed"].
+   "insert_task"; "searching_worker_count"; "activate_worker_relaxed";
+   (* the overflow path moves exactly one bucket: what is drained is what the bucket holds (Bucket::from_iter
+      truncates silently), so that tasks are conserved (PoolCons.v) *)
+   "drain:|_|Bucket::capacity()"; "push_bucket:Bucket::from_iter(drain)"; "BUCKET_SIZE=128"; "QUEUE_SIZE=BUCKET_SIZE*2"].
 Definition skel_run_modelled : list string :=
   ["activate_worker"; "take_panic"; "return"; "pool_is_idle"; "msg_count.load"; "return"; "return"; "parker.park";
    "parker.park_timeout"; "abort_signal.set"; "activate_all_workers"; "return"].
